@@ -174,7 +174,7 @@ pub fn property() -> Property {
         post: None,
         parts: vec![
             Box::new(Part { name: "published-vectors", driver: Driver::Enum(vectors), prop: prop_vector, exhaustive: true }),
-            Box::new(Part { name: "random-keys", driver: Driver::Gen(strategy, 240_000, 960_000), prop: prop, exhaustive: false }),
+            Box::new(Part { name: "random-keys", driver: Driver::Gen(strategy, 240_000, 3_840_000), prop: prop, exhaustive: false }),
         ],
     }
 }
